@@ -19,23 +19,24 @@ import (
 	"verif/harness/internal/memdev"
 )
 
+// tagFat32Dotdot: '..' of a directory below a FAT32 root names the root's own cluster instead of 0
+const tagFat32Dotdot = "fat32-dotdot-root-cluster"
+
 // FAT attribute flags and time stamps on the raw directory bytes.
 //
 // Every setter of the FAT driver re-serialises the whole parent directory. The regime reads the raw bytes of every
 // directory of the volume (fixed root region or cluster chain, located through the hooks VerifGeom / VerifTable /
 // VerifGetClusterList and a parser of its own) before and after each operation and demands:
 //
-//	- no directory but the parent of the entry changes at all;
-//	- in the parent no 32-byte slot but the entry's 8.3 slot changes: the slots of its long name (order, checksum byte),
-//	  the volume-label entry, '.' and '..' and every other entry stay as they were;
-//	- in the 8.3 slot a flag setter changes its own bit of the attribute byte and nothing else (so neither the directory
-//	  bit nor the volume-label bit), Chtimes the ten bytes of the three stamps and nothing else;
-//	- the long-name slots in front of every 8.3 slot carry its checksum and the sequence n|0x40, n-1 .. 1, before and after;
-//	- an operation aimed at the volume label's name is refused and changes nothing;
-//	- '.' and '..' of a new directory: right clusters, directory bit, no long name, stamps equal to those of the
-//	  directory's entry in its parent at creation.
-const tagFat32Dotdot = "fat32-dotdot-root-cluster"
-
+//   - no directory but the parent of the entry changes at all;
+//   - in the parent no 32-byte slot but the entry's 8.3 slot changes: the slots of its long name (order, checksum byte),
+//     the volume-label entry, '.' and '..' and every other entry stay as they were;
+//   - in the 8.3 slot a flag setter changes its own bit of the attribute byte and nothing else (so neither the directory
+//     bit nor the volume-label bit), Chtimes the ten bytes of the three stamps and nothing else;
+//   - the long-name slots in front of every 8.3 slot carry its checksum and the sequence n|0x40, n-1 .. 1, before and after;
+//   - an operation aimed at the volume label's name is refused and changes nothing;
+//   - '.' and '..' of a new directory: right clusters, directory bit, no long name, stamps equal to those of the
+//     directory's entry in its parent at creation.
 type fatRawHooks interface {
 	VerifGeom() (dataStart uint32, bytesPerCluster int, rootDirOffset int64, rootDirMaxEntries int, fat1, fat2 uint64)
 	VerifTable() fat12.FATTable
@@ -52,8 +53,10 @@ type rawSlot struct {
 	b      []byte // the 32 bytes
 }
 
-func (s rawSlot) attr() byte      { return s.b[11] }
-func (s rawSlot) cluster() uint32 { return uint32(binary.LittleEndian.Uint16(s.b[26:28])) | uint32(binary.LittleEndian.Uint16(s.b[20:22]))<<16 }
+func (s rawSlot) attr() byte { return s.b[11] }
+func (s rawSlot) cluster() uint32 {
+	return uint32(binary.LittleEndian.Uint16(s.b[26:28])) | uint32(binary.LittleEndian.Uint16(s.b[20:22]))<<16
+}
 func (s rawSlot) matches(name string) bool {
 	if s.long != "" && s.long == name {
 		return true
